@@ -93,6 +93,7 @@ type Obligation struct {
 }
 
 type modset struct {
+	minSeq int
 	heaps map[string]bool
 	cells map[*ssa.Alloc]bool
 	ghost map[string]bool
@@ -191,6 +192,9 @@ type Exec struct {
 	axSeen   map[int]bool
 	epochCtr int
 	vacuityOn bool
+	objSeq map[int]int
+	specObj map[int]bool
+	allocSeq int
 	noSafety int
 	lastResult *smt.Term
 }
@@ -268,12 +272,29 @@ func (e *Exec) heap(st *State, key string, s *smt.Sort) *smt.Term {
 
 func (e *Exec) newEpoch() int { e.epochCtr++; return e.epochCtr }
 
-func (e *Exec) setHeap(st *State, key string, t *smt.Term) {
-	if e.disc != nil {
+func (e *Exec) setHeap(st *State, key string, t *smt.Term, addr *smt.Term) {
+	if e.disc != nil && !e.loopFresh(addr) {
 		e.disc.heaps[key] = true
 	}
 	e.heapSort[key] = t.S
 	st.Heaps[key] = t
+}
+
+// loopFresh: the address belongs to an object allocated (by this executor) after the loop
+// being analysed was entered; writes to such objects need no havoc of pre-existing state.
+func (e *Exec) loopFresh(a *smt.Term) bool {
+	if a == nil || e.disc == nil {
+		return false
+	}
+	for a.Op == "ctor" && (a.Name == "fld" || a.Name == "elm") {
+		a = a.Args[0]
+	}
+	if a.Op == "ctor" && a.Name == "obj" {
+		if seq, ok := e.objSeq[a.ID]; ok && seq > e.disc.minSeq {
+			return true
+		}
+	}
+	return false
 }
 
 func (e *Exec) fieldHeapSort(fid int) *smt.Sort {
@@ -549,7 +570,11 @@ func (e *Exec) check(st *State, kind string, goal *smt.Term, pos token.Pos, labe
 	o := &Obligation{Name: name, Kind: kind, Func: e.curFunc, Pos: p, Text: txt, Hyp: e.hyp(st), Goal: goal,
 		Values: e.inputs, ValueNames: e.inputNames, Props: e.curProps}
 	e.Obls = append(e.Obls, o)
-	st.Assume(goal)
+	// a checked fact may be used afterwards; quantified goals (postconditions, invariants) are not
+	// carried along: nothing later needs them and they multiply instantiation work
+	if !smt.HasQuant(goal) {
+		st.Assume(goal)
+	}
 }
 
 func (e *Exec) hyp(st *State) *smt.Term {
@@ -645,6 +670,12 @@ func isFresh(a *smt.Term, since *smt.Term) *smt.Term {
 	case a.Op == "ctor" && a.Name == "nil":
 		return smt.False
 	case a.Op == "ctor" && a.Name == "obj":
+		// allocation counters are < 2^61 (axiom), so counter+k never wraps: decide syntactically
+		if b1, c1 := splitAddC(since); true {
+			if b2, c2 := splitAddC(a.Args[0]); b1 == b2 && c1 < 1<<32 && c2 < 1<<32 {
+				return smt.BoolConst(c1 <= c2)
+			}
+		}
 		return smt.BVUle(since, a.Args[0])
 	case a.Op == "ctor" && (a.Name == "fld" || a.Name == "elm"):
 		return isFresh(a.Args[0], since)
@@ -693,4 +724,17 @@ func (e *Exec) assumeNotFreshIf(st *State, cond *smt.Term, v *smt.Term, t types.
 	for _, a := range e.addrsIn(v, t) {
 		e.fact(st, v, smt.Implies(cond, smt.Not(isFresh(a, since))))
 	}
+}
+
+func splitAddC(t *smt.Term) (*smt.Term, uint64) {
+	if t.Op == "bvadd" && len(t.Args) == 2 && t.Args[1].IsConst() {
+		return t.Args[0], t.Args[1].Val
+	}
+	if t.Op == "bvadd" && len(t.Args) == 2 && t.Args[0].IsConst() {
+		return t.Args[1], t.Args[0].Val
+	}
+	if t.IsConst() {
+		return nil, t.Val
+	}
+	return t, 0
 }
